@@ -302,7 +302,7 @@ struct Env {
                 chainReqs.insert(issued);
                 out.push_back("get#" + std::to_string(issued));
             } else if (type == u"result") {
-                out.push_back("result=" + id.toStdString());
+                out.push_back("result=" + id.toStdString() + ">" + el.attribute("to").toStdString());
                 resultIds.push_back(id.toStdString());
             } else if (type == u"error") {
                 out.push_back("error=" + id.toStdString());
@@ -570,6 +570,7 @@ int main(int argc, char **argv)
         iq("set", STRANGER, "p4", { { B, "evil", "both", {} } }),
         iq("set", LOOKALIKES[1], "p5", { { A, "", "remove", {} } }),
         iq("get", A, "p6", {}),
+        iq("get", "", "p7", {}),
     };
     // ---- exhaustive, presence alphabet -------------------------------------------------------
     std::vector<Sym> alphaP = {
